@@ -240,6 +240,70 @@ def h13_slow_broker(S):
             info=f"latency {lat}: message is in {out['places']}, expected {want}")
 
 
+def h13_redis_result(S):
+    """Results kept in Redis: once the execution has finished Job.result returns its outcome with the configured
+    ttl - on a machine with any UTC offset (timestamps are local wall-clock readings, Redis expiry counts unix seconds)."""
+    from repid import Connection, InMemoryMessageBroker, Job, Router, Worker
+    from repid.converter import BasicConverter
+    from fakes import redis as fr
+
+    has_ttl = S.flag("result_ttl_given")
+    ttl = S.int("result_ttl", SEC, 10 * 366 * 86400 * SEC)
+    fails = S.flag("actor_fails")
+    zone = S.int("utc_offset_quarter_hours", -48, 56) * (900 * SEC)
+    later = S.int("read_again_after", 0, 12 * 366 * 86400 * SEC)
+    out = {}
+
+    async def main(loop):
+        srv = fr.FakeServer(clock=lambda: vtime.current_clock().time())
+        rb = fr.mk_bucket_broker(srv, use_result_bucket=True)
+        mb = InMemoryMessageBroker()
+        conn = Connection(mb, None, rb)
+        await mb.connect()
+        await mb.queue_declare("default")
+        r = Router()
+
+        @r.actor(converter=BasicConverter)
+        async def job(i: int):
+            if fails:
+                raise KeyError("k")
+            return i * 2
+
+        j = Job("job", args={"i": 21}, id_="m1", result_id="r1", result_ttl=S.timedelta_us(ttl) if has_ttl else None, _connection=conn)
+        await j.enqueue()
+        worker = Worker(routers=[r], handle_signals=[], _connection=conn, graceful_shutdown_time=1.0, messages_limit=1, tasks_limit=1)
+        await asyncio.wait_for(worker.run(), timeout=20)
+        out["finished_at"] = us_of(vtime.current_clock().now())
+        out["bucket"] = await j.result
+        # the same bucket read again some time later, on a clock of the harness's own
+        pc = PinnedClock(out["finished_at"] + later)
+        prev = vtime.current_clock()
+        vtime.set_clock(pc)
+        try:
+            out["later"] = await j.result
+        finally:
+            vtime.set_clock(prev)
+
+    with vtime.local_zone(zone):
+        run_async(main)
+    S.cover("redis-result-read")
+    b = out["bucket"]
+    S.check("result-readable-once-the-execution-has-finished", b is not None, info=f"Job.result returned None right after the run (utc offset {zone!r} us)")
+    if b is not None:
+        S.check("outcome-of-this-execution", b.success == (not fails) and (b.data == "42" if not fails else b.exception is not None), info=repr(b))
+        if has_ttl:
+            S.check("bucket-ttl-as-configured", us_of_td(b.ttl) == ttl, info=f"{b.ttl!r}")
+            stamped = us_of(b.timestamp)
+            now2 = out["finished_at"] + later
+            if out["later"] is not None:
+                S.check("gone-once-timestamp-plus-ttl-passed", now2 <= stamped + ttl + SEC)
+            else:
+                S.cover("redis-result-expired")
+                S.check("kept-until-timestamp-plus-ttl", now2 >= stamped + ttl - SEC)
+        else:
+            S.check("no-ttl-means-no-expiry", b.ttl is None and out["later"] is not None)
+
+
 def h13_connection(S):
     """Connection validates that the results broker builds result buckets."""
     from repid import Connection, InMemoryBucketBroker, InMemoryMessageBroker
@@ -268,6 +332,13 @@ HARNESSES = [
             bounds={"broker ack/nack/requeue latency": "any real in [0, 60 ms]", "outcome": "success / exhausted failure / failure with a retry left",
                     "store": "fails or not", "worker": "messages_limit=1 (stops right after the message)"},
             functions=["_processor.py:_Processor.process", "worker.py:Worker.run"], covers=["slow-broker"]),
+    Harness(name="H13-redis-result", scenario=h13_redis_result, workers=8,
+            bounds={"result ttl": "None or any µs in [1 s, 10 y]", "utc offset of the machine": "-12:00 .. +14:00 in quarter hours", "actor": "returns / raises",
+                    "second read": "up to 12 years later"},
+            functions=["connections/redis/bucket_broker.py:RedisBucketBroker.store_bucket", "connections/redis/bucket_broker.py:RedisBucketBroker.get_bucket",
+                       "_processor.py:_Processor.set_result_bucket", "job.py:Job.result"],
+            covers=["redis-result-read", "redis-result-expired"],
+            stubs=["fake Redis server: SET with EXAT against the virtual clock's unix time; the machine's zone is a symbolic fixed offset (tzset in the replay)"]),
     Harness(name="H13-connection", scenario=h13_connection, bounds={"results broker bucket class": "ArgsBucket / ResultBucket"},
             functions=["connection.py:Connection.__post_init__"], covers=["connection-validated"]),
 ]
